@@ -1,6 +1,7 @@
 import RedisVerif.Driver.Codec
 import RedisVerif.Driver.Crc32
 import RedisVerif.Model.Wal
+import RedisVerif.Model.Bincode
 
 /-
   C10 sub-driver (stateful: `I` sets the base DIRECTORY — every name of the listing with its
@@ -20,6 +21,13 @@ import RedisVerif.Model.Wal
     T <T> <active hexname|->                  → truncate_before on the base directory: deleted count + remaining names
     F <t> <nbad> {<hex>}*                     → recover_entries_after(t); payloads listed do not deserialise
     Fa <idx> <hex> <t> <nbad> {<hex>}*        → same on (base with bytes appended to file idx)
+                                                (which payloads deserialise is decided by the MODEL's bincode
+                                                decoder `Bincode.deDelta`; the list the harness sends is what the
+                                                real `to_delta` rejects and is only cross-checked: `de-mismatch`)
+    FMT                                       → the on-disk constants of the model: magic, version, header size, entry overhead
+    VE <ts> <crc> <hex>                       → `WalEntry::validate` and `disk_size` of an entry with these public fields
+    RS <hex file> <after>                     → `WalReader::open` + `sequence()` + `entries_after(after)` on a file image
+    WW <n> {<ts> <crc> <hex>}*                → `WalWriter` after these appends: entry_count, max_timestamp, size
 -/
 namespace RedisVerif.Driver.C10
 open RedisVerif RedisVerif.Driver RedisVerif.Wal
@@ -74,6 +82,32 @@ def showOptDeltas : Option (List Bytes) → String
   | some ds => " ".intercalate (toString ds.length :: ds.map (fun d => hexOfBytes (keyOf d)))
 
 def deOf (bad : List Bytes) (d : Bytes) : Option Bytes := if bad.contains d then none else some d
+
+/-- the model's own deserialiser (`WalEntry::to_delta` = `bincode::deserialize`) -/
+def deModel (d : Bytes) : Option Bytes := (Bincode.deDelta d).map (fun _ => d)
+
+/-- ops that need no state -/
+def pureStep? (fmt : Format) : List String → Option String
+  | ["FMT"] => some s!"magic {hexOfBytes magic} version {fmt.version} header {overhead} overhead {overhead}"
+  | ["VE", t, c, h] =>
+    (match t.toNat?, c.toNat?, bytesTok.run [h] with
+    | some t, some c, some (d, _) =>
+      let e : Entry := ⟨d, t, c⟩
+      some s!"valid={if decide (e.Valid fmt crc) then 1 else 0} size={e.size}"
+    | _, _, _ => some "bad-op")
+  | ["RS", h, a] =>
+    (match bytesTok.run [h], a.toNat? with
+    | some (b, _), some a =>
+      some (match openFile fmt b with
+        | none => "err"
+        | some q => s!"seq {q} | {showEntries ((entries fmt crc (b.drop overhead)).filter (fun e => a ≤ e.ts))}")
+    | _, _ => some "bad-op")
+  | "WW" :: rest =>
+    (match (do let n ← nat; repeatP n entryP : P (List Entry)).run rest with
+    | some (es, []) =>
+      some s!"count {es.length} max_ts {maxTs es} size {overhead + (encs es).length}"
+    | _ => some "bad-op")
+  | _ => none
 
 inductive Op where
   | setFmt (v : Nat)
@@ -132,6 +166,9 @@ def opP : P Op := do
 def step (st : St) (line : String) : St × String :=
   let fmt := st.fmt
   let base := st.base
+  match pureStep? fmt (tokens line) with
+  | some o => (st, o)
+  | none =>
   match runP opP line with
   | none => (st, "bad-op")
   | some op =>
@@ -156,6 +193,8 @@ def step (st : St) (line : String) : St × String :=
       let img := match app with
         | none => base
         | some (s, b) => modFile base s (fun x => x ++ b)
-      (st, showOptDeltas (recoverAfter fmt crc (deOf bad) t (recImage img)))
+      let cands := (recoverAll fmt crc (recImage img)).map (·.data)
+      if cands.any (fun d => (deModel d).isSome == bad.contains d) then (st, "de-mismatch")
+      else (st, showOptDeltas (recoverAfter fmt crc deModel t (recImage img)))
 
 end RedisVerif.Driver.C10
